@@ -46,6 +46,20 @@ def judge_record(rec, rep):
         if oc in ("clamped-min", "unmet-small") or abs(f["H"] - f["hmin"]) < 1e-9:
             mech = "stale-temperatures-when-clamped-at-minimum-height"
         rep.violate(mech, f"{PC.method_of(rec)} {oc}: summary max/min {s['max_hp_eft']:.4f}/{s['min_hp_eft']:.4f} vs re-simulated at H={f['H']:.3f}: {rs['max']:.4f}/{rs['min']:.4f}", wit)
+    # the text summary (what SimulationSummary.txt holds) must tell the same story, within its print precision
+    tl = s.get("text_lines") or {}
+    try:
+        if tl.get("NBH:") is not None and int(float(tl["NBH:"])) != f["nbh"]:
+            rep.violate("text-summary-borehole-count-differs", f"text NBH {tl['NBH:']} vs {f['nbh']}", wit)
+        if tl.get("Max HP EFT, C:") is not None and abs(float(tl["Max HP EFT, C:"]) - rs["max"]) > 1.6e-3:
+            rep.violate("text-summary-temperatures-differ", f"text max EFT {tl['Max HP EFT, C:']} vs re-simulated {rs['max']:.4f}", wit)
+        if tl.get("Min HP EFT, C:") is not None and abs(float(tl["Min HP EFT, C:"]) - rs["min"]) > 1.6e-3:
+            rep.violate("text-summary-temperatures-differ", f"text min EFT {tl['Min HP EFT, C:']} vs re-simulated {rs['min']:.4f}", wit)
+        if tl.get("Total Drilling, m:") is not None and abs(float(tl["Total Drilling, m:"]) - f["nbh"] * f["H"]) > 0.51:
+            rep.violate("text-summary-drilling-differs", f"text total drilling {tl['Total Drilling, m:']} vs {f['nbh'] * f['H']:.2f}", wit)
+        rep.count("text_summaries_checked")
+    except ValueError:
+        rep.count("text_summary_lines_not_parsed")
     nrows = 0
     for r in s["search_log_rows"]:
         nrows += 1
